@@ -153,7 +153,38 @@ def c17_case(ctx, rng, gen_size, which, kind, pos_class):
     finally:
         shutil.rmtree(d, ignore_errors=True); shutil.rmtree(hd, ignore_errors=True)
 
+def c17_sweep(ctx, rng, stride=1, which="gen"):
+    """Every single-byte edit of the generated file (or the source): each must be rejected by the loader."""
+    d = mk_dir(ctx, BASE)
+    try:
+        files = generate(ctx, d)
+        if files is None:
+            ctx.record({"sweep": which}, True, False, False, False, detail={"what": "config generate failed"}); return
+        fn = {"gen": "Monorail.json", "src": "Monorail.src.json"}[which]
+        data = files[which]
+        accepted = []
+        for off in range(0, len(data), stride):
+            for new in ((data[off] ^ 1), (data[off] + 1) % 256 if data[off] not in (0x22, 0x5c) else 0x41):
+                if new == data[off]: continue
+                open(os.path.join(d, fn), "wb").write(data[:off] + bytes([new]) + data[off + 1:])
+                rc, out, err, raw = cli(d, "config", "show")
+                rc2, out2, err2, raw2 = cli(d, "target", "show")
+                ctx.evaluations += 1; ctx.traces_validated += 1
+                if rc == 0 or rc2 == 0:
+                    accepted.append({"offset": off, "old": data[off], "new": new, "context": data[max(0, off - 12):off + 12].decode("latin1")})
+        open(os.path.join(d, fn), "wb").write(data)
+        rc, out, err, raw = cli(d, "config", "show")
+        ok = not accepted and rc == 0
+        ctx.count("sweep_%s_offsets" % which, len(range(0, len(data), stride)))
+        ctx.record({"sweep": which, "size": len(data), "stride": stride}, True, ok, ok, True,
+                   sample={"sweep": which, "file_size": len(data), "edits_tried": 2 * len(range(0, len(data), stride)), "accepted": len(accepted)},
+                   detail={"what": "single-byte edits of the %s file that the loader accepted" % which, "accepted": accepted[:8], "restored_ok": rc == 0})
+    finally:
+        shutil.rmtree(d, ignore_errors=True)
+
 def run_c17(ctx, scale):
+    c17_sweep(ctx, ctx.rng, stride=1 if not ctx.quick() else 1, which="gen")
+    if not ctx.quick(): c17_sweep(ctx, ctx.rng, stride=1, which="src")
     rng = ctx.rng
     sizes = [None, 8191, 8192, 8193, 20000] if ctx.quick() else [None, 4000, 8190, 8191, 8192, 8193, 8194, 16384, 65536, 65537, 200000, 300000]
     whiches = ["src", "gen", "lock", "gen", "src", "lock_missing", "src_missing"]
